@@ -1,7 +1,13 @@
 (* Property C01 - no inflation: coins are conserved in every committed ledger state.
-   Statements only; proofs are in Proofs/Conservation.v and Proofs/NodeBasics.v. *)
-From Virel Require Import Lib.Config Lib.U64 Lib.AMap Model.Emission Model.Ledger Model.Node
-  Proofs.Emission Proofs.Conservation Proofs.NodeBasics Proofs.Staking Proofs.StakedSum Gen.Params.
+   Statements only; proofs are in Proofs/Conservation.v, Proofs/StakedSum.v and Proofs/NodeBasics.v (one operation, one
+   block, one chain) and in Proofs/KeyInv.v, Proofs/NodeConservation.v (EVERY ledger state a node can reach, whatever
+   extensions and reorganisations led to it: the C01_reachable theorems at the end of this file). *)
+From Virel Require Import Lib.Config Lib.U64 Lib.AMap Model.Emission Model.Ledger Model.Node Spec.Chain
+  Proofs.Emission Proofs.Conservation Proofs.Pointwise Proofs.NodeBasics Proofs.ForkChoice Proofs.ChainInv
+  Proofs.Staking Proofs.StakedSum Proofs.Refine2 Proofs.Undo Proofs.Replay2 Proofs.Replay3 Proofs.Replay4 Proofs.Replay5
+  Proofs.ChainExamples Proofs.Replay6 Proofs.Mempool2
+  Proofs.KeyInv Proofs.NodeConservation Proofs.NodeConservationEx Gen.Params.
+From Virel Require Model.Des Model.Codec Spec.TxAbs Proofs.CodecBridge Proofs.CodecBridgeNode.
 Open Scope N_scope.
 
 (* side condition on the constants, discharged at every generated configuration *)
@@ -91,13 +97,156 @@ Theorem C01_staked_sum_remove_tx : forall cfg l t bh top_h l',
 Proof. exact remove_tx_SInv. Qed.
 Print Assumptions C01_staked_sum_remove_tx.
 
-(* undoing a staker reward restores the pool record saved under the block hash: PARTIAL - the invariant is kept when
-   that record is the pool as it was before the reward (what ApplyPosReward stores; that the store still holds it at
-   disconnect time is an invariant over the delegate-history table that is not proved here, it is covered by the
-   per-state check of the correspondence run) *)
+(* undoing a staker reward restores the pool record saved under the block hash: as a statement about ONE operation on
+   an arbitrary ledger this is conditional - the invariant is kept when that record is the pool as it was before the
+   reward (what ApplyPosReward stores).  That the delegate history still holds exactly that record whenever a node
+   disconnects the block is part of the node-level replay invariant (Proofs/Replay2.v: RInv, the history entries of the
+   replay are present in the node's ledger); the UNCONDITIONAL statement for every reachable ledger, reorganisations
+   included, is C01_reachable_staked_sum below. *)
 Theorem C01_staked_sum_remove_reward_partial : forall l bh o l',
   SInv l -> o_amt o < two64 ->
   (forall d old, get_dlg l (o_extra o) = Some d -> nget (dhist l) bh = Some old -> tot old + o_amt o = tot d) ->
   remove_pos_reward l bh o = Ok l' -> SInv l' /\ staked l' + o_amt o = staked l.
 Proof. exact remove_pos_reward_SInv. Qed.
 Print Assumptions C01_staked_sum_remove_reward_partial.
+
+(* ================================================================================================================ *)
+(* THE PROPERTY FOR EVERY HISTORY.  n0 = the node after the genesis block, n = the node after ANY sequence of deliveries
+   (any blocks, any order, any clock readings: extensions of the main chain, any number of reorganisations - blocks
+   disconnected by RemoveBlockFromState, others connected -, refused and crashing deliveries).  Premises: exactly those
+   of C03_ledger_is_replay (Props/C03.v, explained there): conditions on the constants, fewer than 2^64 - 1 deliveries,
+   [typed] (uint64-typed amounts and version byte of the payload kind: codec facts, discharged from the decoder model in
+   the _decoded variant below) and [paths] (block hashes and transaction ids pairwise distinct along every chain of
+   stored blocks, counters cannot wrap).  Nothing is assumed about the ledger.
+
+   How it is proved (Proofs/NodeConservation.v): the node's ledger agrees with the replay of its main chain from genesis
+   (C03) - accounts as functions, delegate table and staked total exactly; the replay satisfies everything below
+   (C01_chain_supply, C01_staked_sum_chain); the account index of a reachable ledger and of the replay hold at most one
+   record per address (Proofs/KeyInv.v: kept by every ledger operation, applications and undos alike, with no premise),
+   and two such indexes that agree address by address - an absent record counting as an all-zero one: the undo of the
+   blocks of an abandoned branch leaves emptied records behind - have the same sum of balances (sumf_agree).
+
+   (a) The sum of ALL account balances (burn address and pool addresses included) equals the scheduled emission for the
+       tip height: sum_rewards cfg H = reward(0) + reward(1) + ... + reward(H) with H = stats.TopHeight - the reward of the
+       genesis block (height 0) is part of the sum because addGenesis applies the genesis block like any other
+       (node0 = apply_block_node on the empty ledger); top_h is the height of the tip block (C10_top_height_is_tip_height).
+       It never exceeds the maximum supply. *)
+Theorem C01_reachable_supply_conserved : forall cfg genesis_addr team_key g n0 ops,
+  cfg_ok_emission cfg = true -> cfg_ok_feepos cfg = true ->
+  node0 cfg genesis_addr g = Ok n0 -> b_height g = 0 -> b_cd g = b_diff g ->
+  N.of_nat (length ops) < two64 - 1 ->
+  Forall (tx_c cfg) (b_txs g) ->
+  (forall h b, get_block (run cfg genesis_addr team_key n0 ops) h = Some b ->
+     Forall (fun t => wf_tx cfg t /\ ver_ok t = true) (b_txs b)) ->
+  (forall bs, up (b_hash g) (blocks (run cfg genesis_addr team_key n0 ops)) (b_hash g) bs ->
+     NoDup (bkeys g ++ flat_map bkeys bs) /\ c0 g + bnouts bs < two64 /\ c0 g + bntx bs < two64) ->
+  total_bal (ldg (run cfg genesis_addr team_key n0 ops))
+    = sum_rewards cfg (N.to_nat (top_h (run cfg genesis_addr team_key n0 ops))) /\
+  total_bal (ldg (run cfg genesis_addr team_key n0 ops)) <= max_supply cfg.
+Proof. exact reachable_supply. Qed.
+Print Assumptions C01_reachable_supply_conserved.
+
+(* (b) The network-wide staked total equals the exact (unbounded) sum over all pools of their members' funds, the
+       delegate table is in database-key order and every record is filed under its own id. *)
+Theorem C01_reachable_staked_sum : forall cfg genesis_addr team_key g n0 ops,
+  cfg_ok_emission cfg = true -> cfg_ok_feepos cfg = true ->
+  node0 cfg genesis_addr g = Ok n0 -> b_height g = 0 -> b_cd g = b_diff g ->
+  N.of_nat (length ops) < two64 - 1 ->
+  Forall (tx_c cfg) (b_txs g) ->
+  (forall h b, get_block (run cfg genesis_addr team_key n0 ops) h = Some b ->
+     Forall (fun t => wf_tx cfg t /\ ver_ok t = true) (b_txs b)) ->
+  (forall bs, up (b_hash g) (blocks (run cfg genesis_addr team_key n0 ops)) (b_hash g) bs ->
+     NoDup (bkeys g ++ flat_map bkeys bs) /\ c0 g + bnouts bs < two64 /\ c0 g + bntx bs < two64) ->
+  SInv (ldg (run cfg genesis_addr team_key n0 ops)).
+Proof. exact reachable_staked_sum. Qed.
+Print Assumptions C01_reachable_staked_sum.
+
+(* (c) Nothing wraps: the sum of all balances, hence every balance, the staked total and every fund of every pool are
+       below 2^64 (they are mathematical naturals in the model: the uint64 fields of the implementation hold them). *)
+Theorem C01_reachable_no_wrap : forall cfg genesis_addr team_key g n0 ops,
+  cfg_ok_emission cfg = true -> cfg_ok_feepos cfg = true ->
+  node0 cfg genesis_addr g = Ok n0 -> b_height g = 0 -> b_cd g = b_diff g ->
+  N.of_nat (length ops) < two64 - 1 ->
+  Forall (tx_c cfg) (b_txs g) ->
+  (forall h b, get_block (run cfg genesis_addr team_key n0 ops) h = Some b ->
+     Forall (fun t => wf_tx cfg t /\ ver_ok t = true) (b_txs b)) ->
+  (forall bs, up (b_hash g) (blocks (run cfg genesis_addr team_key n0 ops)) (b_hash g) bs ->
+     NoDup (bkeys g ++ flat_map bkeys bs) /\ c0 g + bnouts bs < two64 /\ c0 g + bntx bs < two64) ->
+  total_bal (ldg (run cfg genesis_addr team_key n0 ops)) < two64 /\
+  (forall a s, get_state (ldg (run cfg genesis_addr team_key n0 ops)) a = Some s -> bal s < two64) /\
+  staked (ldg (run cfg genesis_addr team_key n0 ops)) < two64 /\
+  (forall id d f, get_dlg (ldg (run cfg genesis_addr team_key n0 ops)) id = Some d -> In f (d_funds d) -> f_amt f < two64).
+Proof. exact reachable_no_wrap. Qed.
+Print Assumptions C01_reachable_no_wrap.
+
+(* All of it at once, with the by-products: at most one account record per address, at most one pool record per id, no
+   fund of amount 0, no owner with two funds in one pool.  [typed] discharged from the byte-level decoder model as in
+   C03_ledger_is_replay_decoded: every transaction of a stored block other than genesis is the abstraction of a value
+   Transaction.Deserialize returned. *)
+Theorem C01_reachable_conserved_decoded :
+  forall (txid_of key_id addr_id name_id : list N -> N) (sig_by : Model.Codec.tx -> N) (sig_msg : Model.Codec.tx -> bool)
+         (signer_invalid : list N -> bool) cfg genesis_addr team_key g n0 ops,
+  cfg_ok_emission cfg = true -> cfg_ok_feepos cfg = true -> CodecBridge.cfg_ok_burn cfg = true ->
+  node0 cfg genesis_addr g = Ok n0 -> b_height g = 0 -> b_cd g = b_diff g ->
+  N.of_nat (length ops) < two64 - 1 ->
+  Forall (tx_c cfg) (b_txs g) ->
+  (forall h b, get_block (run cfg genesis_addr team_key n0 ops) h = Some b -> h <> b_hash g ->
+     Forall (fun x => exists hv bs t,
+               Model.Des.result_of (Model.Des.run (Model.Codec.dec_tx cfg hv) bs) = Model.Des.ROk t /\
+               x = TxAbs.abs_tx txid_of key_id addr_id name_id sig_by sig_msg signer_invalid t) (b_txs b)) ->
+  (forall bs, up (b_hash g) (blocks (run cfg genesis_addr team_key n0 ops)) (b_hash g) bs ->
+     NoDup (bkeys g ++ flat_map bkeys bs) /\ c0 g + bnouts bs < two64 /\ c0 g + bntx bs < two64) ->
+  let l := ldg (run cfg genesis_addr team_key n0 ops) in
+  total_bal l = sum_rewards cfg (N.to_nat (top_h (run cfg genesis_addr team_key n0 ops))) /\
+  total_bal l <= max_supply cfg /\
+  SInv l /\
+  (forall a s, get_state l a = Some s -> bal s < two64) /\ staked l < two64 /\
+  NoDup (map fst (accts l)) /\ NoDup (map fst (dlgs l)) /\
+  (forall id d f, get_dlg l id = Some d -> In f (d_funds d) -> 0 < f_amt f) /\
+  (forall id d, get_dlg l id = Some d -> NoDup (map f_owner (d_funds d))).
+Proof. exact reachable_conserved_decoded. Qed.
+Print Assumptions C01_reachable_conserved_decoded.
+
+(* the same with the premises as ONE condition on the final block store (no use of stateless validation):
+   store_pre = every transaction of a stored block is well formed (tx_c) and [paths] *)
+Theorem C01_reachable_conserved_general : forall cfg genesis_addr team_key g n0 ops,
+  cfg_ok_emission cfg = true ->
+  node0 cfg genesis_addr g = Ok n0 -> b_height g = 0 -> b_cd g = b_diff g ->
+  N.of_nat (length ops) < two64 - 1 ->
+  store_pre cfg g (blocks (run cfg genesis_addr team_key n0 ops)) ->
+  let l := ldg (run cfg genesis_addr team_key n0 ops) in
+  total_bal l = sum_rewards cfg (N.to_nat (top_h (run cfg genesis_addr team_key n0 ops))) /\
+  total_bal l <= max_supply cfg /\
+  SInv l /\
+  (forall a s, get_state l a = Some s -> bal s < two64) /\ staked l < two64 /\
+  NoDup (map fst (accts l)) /\ NoDup (map fst (dlgs l)) /\
+  (forall id d f, get_dlg l id = Some d -> In f (d_funds d) -> 0 < f_amt f) /\
+  (forall id d, get_dlg l id = Some d -> NoDup (map f_owner (d_funds d))).
+Proof. exact reachable_conserved_general. Qed.
+Print Assumptions C01_reachable_conserved_general.
+
+(* with NO premise on the blocks at all: in every reachable ledger the account index holds at most one record per
+   address, the delegate table is in database-key order and holds at most one record per pool id *)
+Theorem C01_reachable_keys_distinct : forall cfg genesis_addr team_key g n0 ops,
+  node0 cfg genesis_addr g = Ok n0 ->
+  let l := ldg (run cfg genesis_addr team_key n0 ops) in
+  NoDup (map fst (accts l)) /\ dsorted (dlgs l) /\ NoDup (map fst (dlgs l)).
+Proof. exact reachable_KInv. Qed.
+Print Assumptions C01_reachable_keys_distinct.
+
+(* the lemma that carries the sum across the agreement *)
+Theorem C01_same_accounts_same_sum : forall l1 l2,
+  NoDup (map fst (accts l1)) -> NoDup (map fst (accts l2)) ->
+  (forall a, acct_at l1 a = acct_at l2 a) -> total_bal l1 = total_bal l2.
+Proof. exact total_bal_agree. Qed.
+Print Assumptions C01_same_accounts_same_sum.
+
+(* non-vacuity: every premise holds for the history of Proofs/ChainExamples.v that reorganises from G-A1-A2-A3 to the
+   heavier chain G-B-D (three blocks disconnected, two connected): its final ledger holds the emission for the heights
+   0, 1, 2 *)
+Theorem C01_reachable_example :
+  let n := run cfg_verifnet 7 0 ex_n0 sr_ops in
+  top_h n = 2 /\ map b_hash (mchain n) = [4; 6] /\
+  total_bal (ldg n) = sum_rewards cfg_verifnet 2 /\ total_bal (ldg n) <= max_supply cfg_verifnet /\ SInv (ldg n).
+Proof. exact reachable_example_supply. Qed.
+Print Assumptions C01_reachable_example.
